@@ -216,6 +216,7 @@ impl SwiftField for Field53D {
 
             if looks_like_party_id && !first_line.is_empty() && lines.len() > 1 {
                 // Entire first line is party identifier
+                parse_swift_chars(first_line, "Field 53D party identifier")?;
                 party_identifier = Some(first_line.to_string());
                 lines.remove(0);
             }
@@ -232,6 +233,11 @@ impl SwiftField for Field53D {
             if line.len() > 35 {
                 return Err(ParseError::InvalidFormat {
                     message: format!("Field 53D line {} exceeds 35 characters", i + 1),
+                });
+            }
+            if line.is_empty() {
+                return Err(ParseError::InvalidFormat {
+                    message: format!("Field 53D line {} is empty", i + 1),
                 });
             }
             parse_swift_chars(line, &format!("Field 53D line {}", i + 1))?;
